@@ -950,9 +950,10 @@ fn inject_upgrade(run: &mut Run, ctx: &mut Ctx, arg: &UpArg) -> bool {
     let up_arg = match arg {
         UpArg::None => None,
         UpArg::Threshold(t) => Some(ic_btc_interface::SetConfigRequest { stability_threshold: Some(*t as u128), ..Default::default() }),
+        // settings that no query answer depends on, with values that differ from the current ones
         UpArg::Flags => Some(ic_btc_interface::SetConfigRequest {
-            lazily_evaluate_fee_percentiles: Some(ic_btc_interface::Flag::Enabled),
-            burn_cycles: Some(ic_btc_interface::Flag::Disabled),
+            watchdog_canister: Some(Some(candid::Principal::anonymous())),
+            fees: Some(ic_btc_interface::Fees::mainnet()),
             ..Default::default()
         }),
     };
@@ -990,8 +991,8 @@ fn inject_upgrade(run: &mut Run, ctx: &mut Ctx, arg: &UpArg) -> bool {
                 match arg {
                     UpArg::Threshold(t) => want.stability_threshold = *t as u128,
                     _ => {
-                        want.lazily_evaluate_fee_percentiles = ic_btc_interface::Flag::Enabled;
-                        want.burn_cycles = ic_btc_interface::Flag::Disabled;
+                        want.watchdog_canister = Some(candid::Principal::anonymous());
+                        want.fees = ic_btc_interface::Fees::mainnet();
                     }
                 }
                 ctx.cov.count("c09_upgrades_with_config_argument_checked");
